@@ -25,6 +25,11 @@ impl Driver {
             }
             s
         };
+        if let Ok(path) = std::env::var("VERIF_DUMP_OPS") {
+            if payload.len() > 100_000 {
+                let _ = std::fs::write(path, &payload);
+            }
+        }
         let writer = std::thread::spawn(move || {
             let _ = stdin.write_all(payload.as_bytes());
         });
